@@ -35,7 +35,7 @@ MIN_EVALS = {"quick": 3000, "thorough": 20000}
 PORT = 6053
 
 LITERAL = ("v4", "v6", "v6scope", "v6scope-same-text", "v6-ula-scoped", "v6-sitelocal-scoped")   # last: the same link-local text for every host, only the numeric scope differs
-NAMES = ("bare", "local", "local.", "sub.local", "sub.local.")   # (a name below a sub-domain of .local is a .local name too)
+NAMES = ("bare", "local", "local.", "sub.local", "sub.local.", "local-underscore", "bare-underscore")   # (a name below a sub-domain of .local is a .local name too)
 FQDN = ("fqdn", "fqdn.", "fqdn-local-inside")
 UNEXPRESSIBLE = ("bare-64-byte-label", "local-control-char")   # bare / .local names that mDNS cannot express: the lookup fails before any request -> OS resolver
 MDNS_FOUND = ("v4", "v6", "both", "multi", "incomplete-both", "same-text-two-scopes")   # incomplete: addresses received but no SRV/TXT within the timeout (request reports False)
@@ -45,7 +45,16 @@ PROVISIONS = ("no-manager", "empty-manager", "supplied-async", "supplied-sync", 
               "supplied-async-closed-by-app")   # the application shut its own instance down before this resolve: nothing answers on it, nothing new is created
 
 
+def label(form: str, i: int) -> str:
+    """First label of host i = the name mDNS is asked for (node names with an underscore are ordinary ESPHome names)."""
+    return f"dev_{i}" if form.endswith("-underscore") else f"dev{i}"
+
+
 def host_str(form: str, i: int) -> str:
+    if form == "local-underscore":
+        return f"dev_{i}.local"
+    if form == "bare-underscore":
+        return f"dev_{i}"
     return {"v4": f"10.{i}.9.9", "v6": f"fd00:{i}::99", "v6scope": f"fe80::{i}:99%{i + 2}", "v6scope-same-text": f"fe80::1c2d:3eff:fe4f:5a6b%{i + 2}",
             "v6-ula-scoped": f"fd12:3456:{i}::10%{i + 2}", "v6-sitelocal-scoped": f"fec0::{i}:9%4",   # a numeric scope on an address outside fe80::/10 is used verbatim too
             "bare": f"dev{i}", "local": f"dev{i}.local",
@@ -119,7 +128,7 @@ def reference(hosts: list[tuple[str, str, str]], mdns_available: bool = True, md
             groups = [[tup(host)]]
         else:
             if form in NAMES and mdns_available:
-                calls.append(("mdns", f"dev{i}"))
+                calls.append(("mdns", label(form, i)))
                 if md == "hang":
                     return {"kind": "cut", "calls": calls}
                 if md in MDNS_FOUND and mdns_answers:
@@ -181,7 +190,7 @@ def run_case(case: dict[str, Any]) -> dict[str, Any]:
     with Sim() as sim, mdns.MdnsPatch(sim) as world:
         for i, (form, md, os_) in enumerate(hosts):
             if form in NAMES and md != "-":
-                world.answers[f"dev{i}"] = mdns_answer(md, i)
+                world.answers[label(form, i)] = mdns_answer(md, i)
             if form not in LITERAL and os_ != "-":
                 sim.net.dns[host_str(form, i)] = os_answer(os_, i)
         prov = case["provision"]
@@ -212,20 +221,20 @@ def run_case(case: dict[str, Any]) -> dict[str, Any]:
             for world_k, gap in case["history"]:
                 for i, (form, _md, _os) in enumerate(hosts):
                     md_k, os_k = world_k[i]
-                    world.answers.pop(f"dev{i}", None)
+                    world.answers.pop(label(form, i), None)
                     sim.net.dns.pop(host_str(form, i), None)
                     if form in NAMES and md_k != "-":
-                        world.answers[f"dev{i}"] = mdns_answer(md_k, i)
+                        world.answers[label(form, i)] = mdns_answer(md_k, i)
                     if form not in LITERAL and os_k != "-":
                         sim.net.dns[host_str(form, i)] = os_answer(os_k, i)
                 early = sim.call("resolve-earlier", lambda: hr.async_resolve_host(list(host_list), PORT, mgr))
                 sim.run(until=lambda: early.done, max_time=sim.clock + 100)
                 sim.run_for(gap)
             for i, (form, md, os_) in enumerate(hosts):
-                world.answers.pop(f"dev{i}", None)
+                world.answers.pop(label(form, i), None)
                 sim.net.dns.pop(host_str(form, i), None)
                 if form in NAMES and md != "-":
-                    world.answers[f"dev{i}"] = mdns_answer(md, i)
+                    world.answers[label(form, i)] = mdns_answer(md, i)
                 if form not in LITERAL and os_ != "-":
                     sim.net.dns[host_str(form, i)] = os_answer(os_, i)
             marks = (len(world.requests), len(sim.net.dns_calls), len(sim.net.connect_attempts))
@@ -272,7 +281,7 @@ def run_case(case: dict[str, Any]) -> dict[str, Any]:
                 # the same manager is used again afterwards: the lookups now answer
                 for i, (form, md, os_) in enumerate(hosts):
                     if form in NAMES and md == "hang":
-                        world.answers[f"dev{i}"] = mdns_answer("v4", i)
+                        world.answers[label(form, i)] = mdns_answer("v4", i)
                     if os_ == "hang":
                         sim.net.dns[host_str(form, i)] = os_answer("v4", i)
                 out["cut_seq"] = sim.next_seq()
